@@ -135,6 +135,18 @@ def readBlock (c : Codec) (s : RState) : RState × Except RErr Unit :=
           | .ok d => ({ src := src2, data := d, pos := 0 }, .ok ())
           | .error e => ({ src := src2, data := [], pos := 0 }, .error e)
 
+/-- `r.readBlock()` as the translated `Read` sees it: the new state and whether an error was returned … -/
+def readBlockP (c : Codec) (s : RState) : RState × Bool :=
+  match readBlock c s with
+  | (s', .ok ()) => (s', false)
+  | (s', .error _) => (s', true)
+
+/-- … and the error it returned -/
+def readBlockErr (c : Codec) (s : RState) : RErr :=
+  match readBlock c s with
+  | (_, .error e) => e
+  | (_, .ok ()) => .method
+
 /-- `Reader.Read(p)` with `len(p) = k`. -/
 def read (c : Codec) (s : RState) (k : Nat) : RState × Except RErr Bytes :=
   if s.pos ≥ s.data.length then
